@@ -25,7 +25,8 @@ LEVEL = "exploration"
 QUICK_N = 64
 SCENARIO_TIMEOUT = 300
 BATCH = 24
-PROBES = ["chain_of_subsets", "contained_in_two", "equal_sets", "empty_protein", "shared_peptides", "missed_cleavages>0",
+PROBES = ["chain_of_subsets", "contained_in_two", "equal_sets", "empty_protein", "shared_peptides",
+          "target_decoy_shared_peptide", "missed_cleavages>0",
           "hash_seeds_compared", "orders_compared", "groups_with_>=3_members", "small_exhaustive_block"]
 RULE = (
     "Each scenario is a batch of 24 seeded incidence structures (3-12 proteins x 3-12 token peptides; chains of subsets, a "
@@ -38,7 +39,8 @@ RULE = (
 )
 ASSUMPTIONS = [
     "the protein -> peptide incidence is taken from mokapot.digest (C17's function) - C16 is about grouping given it",
-    "peptide tokens are non-palindromic and decoy tokens (reversed interior) are disjoint from target tokens",
+    "two thirds of the structures use non-palindromic tokens (decoy peptides disjoint from target peptides); one third "
+    "plants tokens with a palindromic interior, so that a decoy shares peptides with (or equals) its target",
     "'belongs to a protein group' is read as 'to at least one' (a protein contained in two maximal proteins is listed in both)",
     "the exhaustive <=4x4 space named in the quantifier is enumerated block-wise across scenarios; a quick run covers "
     "only some blocks (reported by probe small_exhaustive_block)",
@@ -89,8 +91,9 @@ def build_structs(scn):
     structs = []
     if scn.get("exhaustive_block") is not None:
         structs = _small_structs(scn["exhaustive_block"])
-    for s in scn["struct_seeds"][: BATCH - len(structs)]:
-        structs.append(datagen.gen_incidence(random.Random(s)))
+    for i, s in enumerate(scn["struct_seeds"][: BATCH - len(structs)]):
+        # every third structure has tokens whose decoy equals the target (targets and decoys then share peptides)
+        structs.append(datagen.gen_incidence(random.Random(s), palindromes=0.4 if i % 3 == 2 else 0.0))
     if scn.get("only") is not None:
         structs = [structs[scn["only"]]]
     return structs
@@ -222,6 +225,7 @@ def _features(st):
         "chain_of_subsets": int(any(a < b and any(b < c for c in ne) for a in ne for b in ne)),
         "contained_in_two": int(any(sum(1 for b in set(ne) if a < b) >= 2 for a in ne)),
         "shared_peptides": int(any(sum(1 for s in ne if t in s) >= 2 for t in st["tokens"])),
+        "target_decoy_shared_peptide": int(any(t[:-1] == t[:-1][::-1] for t in st["tokens"] if any(t in s for s in ne))),
         "subset": int(any(a < b for a in ne for b in ne)),
     }
     return f
@@ -235,7 +239,8 @@ def run_scenario(scn, workdir):
     nontrivial = 0
     for st in structs:
         f = _features(st)
-        for k in ("chain_of_subsets", "contained_in_two", "equal_sets", "empty_protein", "shared_peptides"):
+        for k in ("chain_of_subsets", "contained_in_two", "equal_sets", "empty_protein", "shared_peptides",
+                  "target_decoy_shared_peptide"):
             probes[k] += f[k]
         nontrivial += int(f["subset"] or f["equal_sets"] or f["shared_peptides"])
     probes["missed_cleavages>0"] = int(dk["missed_cleavages"] > 0)
